@@ -59,6 +59,19 @@ static void run_case(int vi, size_t len, const kern::Placement &pl, uint32_t pos
 		size_t cand[8] = {0, 1, len - 1, len - 2, len / 2, (size_t) (mix64(posseed) % len), (size_t) (mix64(posseed + 1) % len), len - 1 - (size_t) (mix64(posseed + 2) % 300)};
 		for (size_t pos : cand) probe(pos, (uint8_t) (1 + mix64(posseed + pos) % 255));
 	}
+	// densely non-zero regions (every chunk's OR mask saturated): still "non-zero", still no access outside
+	if (len) {
+		static const size_t TAILS[] = {0, 0, 16, 32, 64, 128, 256};
+		static const char *KN[] = {"all-0xFF", "random non-zero", "zero except the last 16 bytes = 0xFF", "zero except the last 32 bytes = 0xFF", "zero except the last 64 bytes = 0xFF", "zero except the last 128 bytes = 0xFF", "zero except the last 256 bytes = 0xFF"};
+		for (int kind = 0; kind < 7; kind++) {
+			if (kind == 0) memset(b.p, 0xFF, len);
+			else if (kind == 1) for (size_t i = 0; i < len; i++) b.p[i] = (uint8_t) (1 + mix64(posseed + i) % 255);
+			else { if (TAILS[kind] > len) continue; memset(b.p, 0, len); memset(b.p + len - TAILS[kind], 0xFF, TAILS[kind]); }
+			guard::Fault f3 = guard::call([&] { r = fn(b.p, len); });
+			PBT_CHECK(!f3.faulted, key, "%s(len=%zu, %s) on a %s region: %s", vname.c_str(), len, pl.desc().c_str(), KN[kind], f3.describe().c_str());
+			PBT_CHECK(r != 0, key, "%s(len=%zu, %s) returned 0 for a %s region", vname.c_str(), len, pl.desc().c_str(), KN[kind]);
+		}
+	}
 	PBT_CHECK(guard::canaries_ok(b), key, "%s wrote around the region", vname.c_str());
 	if (c.want_sample) c.sample = fmt("{\"variant\":%s,\"len\":%zu,\"placement\":%s,\"positions_probed\":%zu}", jstr(vname).c_str(), len, jstr(pl.desc()).c_str(), npos);
 }
@@ -91,7 +104,7 @@ static void sweep(SweepSink &s) {
 
 int main(int argc, char **argv) {
 	const char *rule = "case = (variant or dispatcher@cpu-level, len, placement); each case probes the all-zero region and every byte position x {0x01,0x80,0xFF} "
-	                   "(8 sampled positions when len > 1200); neighbours outside the region are non-zero canaries or an inaccessible page; non-trivial: len >= 1";
+	                   "(8 sampled positions when len > 1200), then an all-0xFF region, a random non-zero region and zero regions whose last 16/32/64/128/256 bytes are 0xFF (saturated final chunk); neighbours outside the region are non-zero canaries or an inaccessible page; non-trivial: len >= 1";
 	std::vector<Sub> subs = {
 		{"sweep", body_sweep, 5, 0, sweep, rule},
 		{"random", body, 8, 1, nullptr, rule},
